@@ -164,6 +164,8 @@ type Result struct {
 	Races    int       `json:"races,omitempty"`
 	StepResults []StepResult `json:"step_results,omitempty"`
 
+	ElapsedMs int `json:"elapsed_ms,omitempty"` // wall time the worker spent on this case
+
 	// filled by the driver when the worker died on this case
 	Died   bool   `json:"died,omitempty"`
 	Stderr string `json:"stderr,omitempty"`
